@@ -63,3 +63,19 @@ Definition C03_stable_without_compaction_statement : Prop :=
 Theorem C03_stable_without_compaction : C03_stable_without_compaction_statement.
 Proof. exact stable_without_compaction. Qed.
 Print Assumptions C03_stable_without_compaction.
+
+(* Conditional 3 (schedule level, outside both classes): for every history h, every j, every reader r: run the
+   writer's first j operations, let r acquire with no writer step in between, then continue with ANY schedule
+   (the remaining commits step by step, other readers acquiring and reading, r reading whenever it is scheduled):
+   if no compaction is among the remaining operations, every view r ever observes is exactly the committed
+   state after the first j operations. *)
+Definition C03_quiescent_snapshot_schedules_statement : Prop :=
+  forall (h : list wop) (readers : list nat) (j r : nat) (sched' : list nat),
+    1 <= r <= length readers ->
+    (forall o, In o (skipn j h) -> o <> WCompact) ->
+    let pre := repeat 0 (length (writer_prog (firstn j h))) ++ repeat r (length acquire_steps) in
+    let c := srun (pre ++ sched') (sinit h readers) in
+    forall v, In v (obs_of r (Sched.shared c)) -> v = view_of_spec (spec_of (firstn j h)).
+Theorem C03_quiescent_snapshot_schedules : C03_quiescent_snapshot_schedules_statement.
+Proof. exact quiescent_snapshot_schedules. Qed.
+Print Assumptions C03_quiescent_snapshot_schedules.
